@@ -34,8 +34,12 @@ func (si SuInt64) Compare(other Value) int {
 	if i2, ok := SuIntToInt(other); ok {
 		return cmp.Compare(si.int64, int64(i2))
 	}
+	d2 := other.(SuDnum)
+	if i2, ok := d2.IfInt(); ok {
+		return cmp.Compare(si.int64, int64(i2)) // exact, agrees with Equal
+	}
 	dn, _ := si.ToDnum()
-	return dnum.Compare(dn, other.(SuDnum).Dnum)
+	return dnum.Compare(dn, d2.Dnum)
 }
 
 func (si SuInt64) Equal(other any) bool {
